@@ -127,6 +127,8 @@ def run(repo, chk):
         chk.ob("R10.4", f"collector.{h}:label-{lab}", ok, "ptera/transform.py", f"{h} labels its names with provenance {lab!r}")
 
     # ---------------- R10.5
+    from .shared import closure_reference_obligations
+    closure_reference_obligations(repo, chk, "R10.5")
     cg = CallGraph(repo)
     at = repo.func("overlay.autotool")
     g = CFG(at.node, lambda s: False)
